@@ -295,6 +295,28 @@ impl<'a> World<'a> {
             if (real.exit == Exit::Ok) != shadow_ok {
                 self.st.anomalies.push(format!("{cmd} {name}: shadow and real run disagree ({:?} vs {:?})", shadow.exit.class(), real.exit.class()));
             }
+            // a successful operation leaves exactly its artifacts in the store: the same bytes
+            // the same operation writes into an empty directory (nothing kept from an earlier
+            // generation, nothing skipped)
+            if real.exit == Exit::Ok && shadow_ok {
+                let mut exts = vec!["interface"];
+                if build {
+                    exts.push("core");
+                }
+                for ext in exts {
+                    let fresh = self.sb.read(&format!("shadow/{name}.{ext}"));
+                    let stored = self.sb.read(&format!("{outdir}/{name}.{ext}"));
+                    if fresh.is_some() && fresh != stored {
+                        self.finding(
+                            "successful-build-left-other-bytes",
+                            json!({"class": "successful-build-left-other-bytes", "by": cmd, "artifact": ext}),
+                            format!("C15: `{cmd}` of {name} reported success but {outdir}/{name}.{ext} does not hold what this operation writes into an empty directory (a file of an earlier generation was kept or the write was skipped)"),
+                        );
+                    } else {
+                        *self.st.probes.entry("successful_build_store_compared_with_fresh_output").or_insert(0) += 1;
+                    }
+                }
+            }
         }
         if build {
             self.last_written = before;
@@ -941,11 +963,30 @@ pub fn run_history(sb: &Sandbox, proj: &Project, ops: &[Op], final_phase: bool) 
         // bounded liveness: after the faults stop, a clean rebuild of everything links and the
         // program prints what the current sources denote
         w.op_index = ops.len();
+        let n = w.proj.pkgs.len();
+        // first in place, over whatever the history left in the store (that is what a user
+        // does: rebuild everything in dependency order, link); the shadowing directory goes
+        sb.remove("store0");
+        sb.mkdir("store0");
+        for pi in (0..n).rev() {
+            w.check_or_build(pi, mix(&[pi as u64, 78]), true, None, false);
+        }
+        let before = w.findings.len();
+        let ok_before = *w.st.probes.get("consistent_link_succeeded").unwrap_or(&0);
+        w.link(&(0..n).map(|i| (0u8, i)).collect::<Vec<_>>(), 4243);
+        let ok_after = *w.st.probes.get("consistent_link_succeeded").unwrap_or(&0);
+        if ok_after == ok_before && w.findings.len() == before {
+            w.finding(
+                "no-progress-after-faults",
+                json!({"class": "no-progress-after-faults", "how": "in-place"}),
+                "C15: after the faults stopped, rebuilding every package in dependency order over the existing store did not link".to_string(),
+            );
+        }
+        // then from an empty store
         sb.remove("store");
         sb.remove("store0");
         sb.mkdir("store");
         sb.mkdir("store0");
-        let n = w.proj.pkgs.len();
         for pi in (0..n).rev() {
             w.check_or_build(pi, mix(&[pi as u64, 77]), true, None, false);
         }
